@@ -4,6 +4,8 @@ R1: spec/GqlDepth.tla WrapInvariant (wrapping in fragments never changes the dep
 R2: TLC builds every operation of <= MaxSteps build actions (fields, inline fragments, named fragment spreads, @skip/@include
     steered by $v), chooses v and the operation-name filter, and computes the set of operations to flag for limits 0..5;
     each is replayed into MaxDepthValidationRule directly and through validate_ast."""
+import signal
+
 from harness import par, tlc
 
 SCHEMA_SDL = "schema { query: O }  type O { a: Int  o: O }"
@@ -57,17 +59,46 @@ def features(sel):
     return "+".join(f) or "plain"
 
 
+BUDGET_S = 2
+
+
+class _RunsAway(BaseException):
+    pass
+
+
+def _alarm(signum, frame):
+    raise _RunsAway()
+
+
+def guarded(rule, schema, doc, variables):
+    signal.setitimer(signal.ITIMER_REAL, BUDGET_S)
+    try:
+        return list(rule(schema, doc, variables))
+    except _RunsAway:
+        raise RuntimeError("measuring one small operation takes longer than %d s" % BUDGET_S)
+    finally:
+        signal.setitimer(signal.ITIMER_REAL, 0)
+
+
 def doc_size(doc):
-    """Number of selection nodes of a document (cheap fingerprint: a rule that grows the tree it measures is caught at once)."""
-    def count(sels):
-        n = 0
+    """Number of selection nodes of a document (cheap fingerprint: a rule that grows the tree it measures is caught at once).
+    Total on damaged trees: a selection list reached twice (shared or cyclic) or more than 20000 nodes give -1."""
+    n = 0
+    seen = set()
+    stack = [d.selection_set.selections for d in doc.definitions]
+    while stack:
+        sels = stack.pop()
+        if id(sels) in seen:
+            return -1
+        seen.add(id(sels))
         for x in sels:
             n += 1
+            if n > 20000:
+                return -1
             ss = getattr(x, "selection_set", None)
             if ss is not None:
-                n += count(ss.selections)
-        return n
-    return sum(count(d.selection_set.selections) for d in doc.definitions)
+                stack.append(ss.selections)
+    return n
 
 
 def _worker(behs):
@@ -78,11 +109,22 @@ def _worker(behs):
     schema = build_schema(SCHEMA_SDL)
     out = {}
     n = 0
+    signal.signal(signal.SIGALRM, _alarm)
+    try:        # a rule that doubles a list on every step exhausts the machine within the time budget: cap the worker's address space
+        import resource
+        soft, hard = resource.getrlimit(resource.RLIMIT_AS)
+        cap = 3 << 30
+        resource.setrlimit(resource.RLIMIT_AS, (cap if hard == resource.RLIM_INFINITY else min(cap, hard), hard))
+    except Exception:
+        pass
     # long-lived rule instances and parsed documents: the verdict must not depend on earlier calls (C19 is a pure
     # function of document, variables, limit and filter)
     rules = {}
     docs = {}
+    runaway = 0
     for b in behs:
+        if runaway >= 3:
+            break           # the violation is reported; replaying the rest at BUDGET_S per measurement would take hours
         sel = b["sel"]
         var = "($v: Boolean!)" if uses_var(sel) else ""
         text = "query A%s { %s }\nquery B { ...H }\n%s" % (var, render_sel(sel), FRAGS)
@@ -106,6 +148,7 @@ def _worker(behs):
                 wit = {"text": text, "variables": variables, "limit": limit, "operation_name": filt, "expected_flagged": exp,
                        "spec_depth": b["depth"], "via": via}
                 try:
+                    signal.setitimer(signal.ITIMER_REAL, BUDGET_S)       # a measurement takes microseconds: seconds mean it runs away
                     rule = rules.get((limit, filt))
                     if rule is None:
                         rule = rules[(limit, filt)] = MaxDepthValidationRule(limit, operation_name=filt)
@@ -120,7 +163,14 @@ def _worker(behs):
                     else:
                         errs = list(validate_ast(schema, doc, validators=[rule], variables=variables).errors)
                     got = sorted(e.nodes[0].name.value for e in errs)
+                    signal.setitimer(signal.ITIMER_REAL, 0)
+                except _RunsAway:
+                    out.setdefault("depth/does-not-terminate/%s" % feat, ["measuring one small operation takes longer than %d s" % BUDGET_S, wit])
+                    modified = True
+                    runaway += 1
+                    break
                 except Exception as e:
+                    signal.setitimer(signal.ITIMER_REAL, 0)
                     out.setdefault("depth/raises/%s/%s" % (type(e).__name__, feat), ["depth rule raises", dict(wit, error=repr(e))])
                     continue
                 if got != exp:
@@ -132,9 +182,15 @@ def _worker(behs):
             if modified:
                 break
         # a validator reads the document: the tree it was given is the same afterwards (servers cache parsed documents)
-        if modified or print_ast(doc) != printed_before:
-            out.setdefault("depth/document-modified/%s" % feat, ["the rule changed the document it measured", {"text": text, "after": print_ast(doc)[:600]}])
+        if not modified:
+            try:
+                modified = doc_size(doc) != size_before or print_ast(doc) != printed_before
+            except BaseException:           # (a tree that can no longer be printed has certainly been changed)
+                modified = True
+        if modified:
+            out.setdefault("depth/document-modified/%s" % feat, ["the rule changed the document it measured", {"text": text, "selections_before": size_before, "selections_after": doc_size(doc)}])
             docs.pop(text, None)
+            continue            # (a rule that rewrites its input is reported once per document; the remaining stages need an intact one)
         # ---- the same selection as the document's only, ANONYMOUS operation: a name filter selects nothing, no filter measures it
         extra = (hash(text) % 3 == 0)
         if b["filter"] != "B" and extra:
@@ -148,7 +204,7 @@ def _worker(behs):
                     exp = ["<anonymous>"] if (filt is None and b["depth"] > limit) else []
                     wit = {"text": atext, "variables": variables, "limit": limit, "operation_name": filt, "expected_flagged": exp, "spec_depth": b["depth"]}
                     try:
-                        errs = list(MaxDepthValidationRule(limit, operation_name=filt)(schema, adoc, variables))
+                        errs = guarded(MaxDepthValidationRule(limit, operation_name=filt), schema, adoc, variables)
                         got = sorted((e.nodes[0].name.value if e.nodes[0].name else "<anonymous>") for e in errs)
                     except Exception as e:
                         out.setdefault("depth/raises/%s/anonymous+%s" % (type(e).__name__, feat), ["depth rule raises", dict(wit, error=repr(e))])
@@ -169,7 +225,7 @@ def _worker(behs):
                 wit = {"text": dtext, "variables": {}, "limit": limit, "operation_name": b["filter"] or None, "expected_flagged": fl_l, "spec_depth": b["depth"]}
                 for submitted, label in (({}, "declared-default"), (None, "declared-default")):
                     try:
-                        errs = list(MaxDepthValidationRule(limit, operation_name=b["filter"] or None)(schema, ddoc, submitted))
+                        errs = guarded(MaxDepthValidationRule(limit, operation_name=b["filter"] or None), schema, ddoc, submitted)
                         got = sorted(e.nodes[0].name.value for e in errs)
                     except Exception as e:
                         out.setdefault("depth/raises/%s/variable-with-%s" % (type(e).__name__, label), ["depth rule raises", dict(wit, error=repr(e))])
@@ -178,7 +234,7 @@ def _worker(behs):
                         out.setdefault("depth/variable-default-ignored/%s" % ("not-flagged" if len(got) < len(fl_l) else "spurious-flag"),
                                        ["with no submitted value the variable has its declared default: flagged operations differ", dict(wit, got=got)])
                 try:
-                    list(MaxDepthValidationRule(limit)(schema, doc, {}))        # $v: Boolean! without a value
+                    guarded(MaxDepthValidationRule(limit), schema, doc, {})        # $v: Boolean! without a value
                 except Exception as e:
                     out.setdefault("depth/raises/%s/variable-without-value" % type(e).__name__, ["depth rule raises", dict(wit, text=text, error=repr(e))])
     return out, n
